@@ -405,6 +405,11 @@ func checkConv(p *Prog, r *Report, pkg, prop string) {
 	if pkg == "linux" {
 		ruleMapComparisonSymmetric(p, r, map[string]bool{pkg: true}, 0)
 	}
+	ruleComparatorsPure(p, r, map[string]bool{pkg: true}, newSummarizer(p), map[string][]string{
+		"linux": {"linux.diffIPTables", "linux.checkExtra"},
+		"panos": {"panos.unknownEq", "panos.stringsEq"},
+		"nsx":   {},
+	}[pkg])
 	if pkg == "panos" || pkg == "nsx" {
 		ruleComparatorsComplete(p, r, map[string]bool{pkg: true}, map[string]int{"panos": 6, "nsx": 2}[pkg])
 	}
